@@ -28,7 +28,7 @@ MAJORS = [0, 1, 2, 3, 4, 2**32 - 1]
 MINORS = [0, 9, 10, 2**32 - 1]
 
 
-def run_one(major, minor, name, expected, login, password, invalid, order, cuts):
+def run_one(major, minor, name, expected, login, password, invalid, order, cuts, hangup=None):
     net = simnet.Net()
     loop = net.loop
     net.auto_resolve = net.auto_sock = True
@@ -48,6 +48,10 @@ def run_one(major, minor, name, expected, login, password, invalid, order, cuts)
     pts = [0] + sorted(set(c for c in cuts if 0 < c < len(stream))) + [len(stream)]
     for a, b in zip(pts, pts[1:]):
         net.feed(stream[a:b])
+        if hangup and b == len(stream):
+            # the device hangs up right after its answer (what a device does after rejecting a password): the last chunk and
+            # the end of the connection reach the client in the same loop turn, before the connect task resumes
+            net.eof() if hangup == "eof" else net.reset()
         loop.run_idle()
     # a device that stays silent afterwards: let the hello/login timeout decide
     if not o.done:
@@ -188,9 +192,15 @@ def run(ck: Check):
             cut_modes = ["one", "each-frame", "bytes"] if thorough else [rng.choice(["one", "each-frame", "bytes", "random"])]
             for cm in cut_modes:
                 cases.append((major, minor, name, expected, login, password, invalid, od, cm))
+    cases = [c + (None,) for c in cases]
+    # the same in-order exchanges with the device hanging up in the turn of its last answer
+    for c in list(cases):
+        if c[7] in ("h", "hc") and (c[7] == "hc" or not c[4]) and c[8] != "bytes" and (thorough or rng.random() < 0.35):
+            cases.append(c[:9] + (rng.choice(["eof", "reset"]),))
     lines, results = [], []
-    dist = {"cases": len(cases), "accepted": 0, "version": 0, "badName": 0, "invalidAuth": 0, "other": 0, "orders": {}}
-    for (major, minor, name, expected, login, password, invalid, od, cm) in cases:
+    dist = {"cases": len(cases), "accepted": 0, "version": 0, "badName": 0, "invalidAuth": 0, "other": 0, "orders": {},
+            "hangups": sum(1 for c in cases if c[9])}
+    for (major, minor, name, expected, login, password, invalid, od, cm, hang) in cases:
         if cm == "one":
             cuts = []
         elif cm == "bytes":
@@ -199,7 +209,7 @@ def run(ck: Check):
             cuts = [len(simnet.plain_frame(pb.HelloResponse(api_version_major=major, api_version_minor=minor, name=name, server_info="x")))]
         else:
             cuts = sorted(rng.sample(range(1, 60), 4))
-        res, info = run_one(major, minor, name, expected, login, password, invalid, od, cuts)
+        res, info = run_one(major, minor, name, expected, login, password, invalid, od, cuts, hang)
         results.append((res, info))
         # what the collector sees: the responses of the types it listens for, up to the first of the last expected type
         seq = {"h": ["h"], "hc": ["h", "c"], "ch": ["c", "h"], "c": ["c"], "hhc": ["h", "h", "c"]}[od]
@@ -226,14 +236,17 @@ def run(ck: Check):
             idx = i + 16 * j
             case = cases[idx]
             res, info = results[idx]
-            major, minor, name, expected, login, password, invalid, od, cm = case
+            major, minor, name, expected, login, password, invalid, od, cm, hang = case
             n += 1
+            if hang and m == "accept":
+                continue     # an accepted session that the device drops at once: either outcome of connect() is in order
             if lines[idx] == "cn.judge-timeout":
                 want = "err:timeout"   # the stop response never came: the 30 s hello/login timer decides
             else:
                 want = "ok" if m == "accept" else m
             rep = {"major": major, "minor": minor, "name": name, "expected": expected, "login": login, "password_set": password is not None,
-                   "invalid_password": invalid, "order": od, "chunking": cm, "observed": res, "info": {k: str(v) for k, v in info.items()}}
+                   "invalid_password": invalid, "order": od, "chunking": cm, "device_hangs_up_in_the_same_turn": hang, "observed": res,
+                   "info": {k: str(v) for k, v in info.items()}}
             if res != want:
                 ck.disagreement("hello/login verdict: model != implementation", {**rep, "model": want})
             # ---- spec on the implementation (in-order responses) -------------------------------------------------
